@@ -241,6 +241,17 @@ def run(transport, fault, victim, step, paused=False, second=None, paused_surviv
                 return [], False
             sconn["link"].server_ep.pause()
 
+        def publish(text, blob):
+            """the device publishes an update of its text and of its BLOB property; a connection's trouble must never
+            surface in the device's own code"""
+            for el, v in ((dev.g.t.a, text), (dev.g.b.a, blob)):
+                try:
+                    el.value = v
+                except Exception as e:  # noqa
+                    from mc import lib
+
+                    fails.append(("error-surfaced-in-device", d0 + "," + lib.exc_site(e), "step %d: publishing raised %r" % (step, e)))
+
         def already_closed(c):
             # a connection the server has closed (or that reads EOF) although nothing was injected on it yet: some
             # other connection's end took it down.  Reported; its own fault is then not applicable any more.
@@ -276,8 +287,7 @@ def run(transport, fault, victim, step, paused=False, second=None, paused_surviv
         writer = next(c for c in conns if c is not vconn and c is not vconn2)
         s.send(writer, '<newTextVector device="DEV0" name="T"><oneText name="A">fromclient</oneText></newTextVector>')
         maybe(3)
-        dev.g.t.a.value = "traffic1"
-        dev.g.b.a.value = BLOB(b"blob1", ".x")
+        publish("traffic1", BLOB(b"blob1", ".x"))
         s.pump()
         maybe(4)
         if not injected or (second and not injected2[0]):
@@ -307,8 +317,7 @@ def run(transport, fault, victim, step, paused=False, second=None, paused_surviv
         wac = {id(c): c["link"].server_ep.transport.writes_after_close for c in victims if c["kind"] == "tcp"}
         # --- after the end of the victim's connection
         marks = {id(c): len(s.output(c)) for c in conns}
-        dev.g.t.a.value = "AFTER-TEXT"
-        dev.g.b.a.value = BLOB(b"AFTER-BLOB", ".y")
+        publish("AFTER-TEXT", BLOB(b"AFTER-BLOB", ".y"))
         s.pump()
         router = w.router
         for vconn in victims:
@@ -361,8 +370,7 @@ def run(transport, fault, victim, step, paused=False, second=None, paused_surviv
         if "<def" not in s.output(n):
             fails.append(("reconnect-not-served", d0 + ",handshake", "step %d: the handshake of a new connection was not answered" % step))
         mark = len(s.output(n))
-        dev.g.t.a.value = "AFTER2-TEXT"
-        dev.g.b.a.value = BLOB(b"AFTER2-BLOB", ".z")
+        publish("AFTER2-TEXT", BLOB(b"AFTER2-BLOB", ".z"))
         s.pump()
         tail = s.output(n)[mark:]
         if "AFTER2-TEXT" not in tail:
